@@ -6,6 +6,7 @@
 mod c01;
 mod c04;
 mod c05;
+mod c06;
 mod c07;
 mod c08;
 mod c09;
@@ -50,6 +51,7 @@ fn main() {
                 "C04" => c04::record(&mut rec, seed, thorough),
                 "C01" => c01::record(&mut rec, seed, thorough),
                 "C05" => c05::record(&mut rec, seed, thorough),
+                "C06" => c06::record(&mut rec, seed, thorough),
                 "C07" => c07::record(&mut rec, seed, thorough),
                 "C02" => scan::record_c02(&mut rec, seed, thorough),
                 "C03" => scan::record_c03(&mut rec, seed, thorough),
